@@ -23,6 +23,8 @@ type decTr struct {
 	inGo bool
 	// opaqueGo: `go func() {...}()` is one effect whose text is the goroutine's source
 	opaqueGo bool
+	// nesting depth of `for cond {}` loops being translated
+	loopDepth int
 }
 
 func (t *decTr) render(e ast.Expr) string {
@@ -85,6 +87,8 @@ func (t *decTr) stmt(s ast.Stmt) string {
 			if x.Tok == token.ASSIGN || x.Tok == token.DEFINE {
 				return "DAssign " + q(t.render(x.Lhs[0])) + " " + q(t.render(x.Rhs[0]))
 			}
+			// x += e and the like: an update of x, recorded with its operator
+			return "DCall " + q(t.render(x.Lhs[0])+" "+x.Tok.String()+" "+t.render(x.Rhs[0]))
 		}
 		// `_, err = f(...)`: an effect; the call is recorded, the named results are assigned its text
 		if len(x.Lhs) == 2 && len(x.Rhs) == 1 {
@@ -129,6 +133,10 @@ func (t *decTr) stmt(s ast.Stmt) string {
 			if vs, ok := gd.Specs[0].(*ast.ValueSpec); ok && len(vs.Values) == 0 && len(vs.Names) == 1 {
 				if id, ok := vs.Type.(*ast.Ident); ok && id.Name == "bool" {
 					return "DAssign " + q(vs.Names[0].Name) + " " + q("false")
+				}
+				// `var x string` / `var x int` INSIDE a loop body is a reset on every iteration
+				if id, ok := vs.Type.(*ast.Ident); ok && t.loopDepth > 0 && (id.Name == "string" || id.Name == "int") {
+					return "DAssign " + q(vs.Names[0].Name) + " " + q("zero "+id.Name)
 				}
 			}
 		}
@@ -215,6 +223,26 @@ func (t *decTr) stmt(s ast.Stmt) string {
 		// says how many iterations are looked at
 		if x.Init == nil && x.Cond == nil && x.Post == nil {
 			return "DRange " + q("_") + " " + q("forever") + " " + t.stmts(x.Body.List)
+		}
+		// for cond { body }: the forever loop whose first statement leaves it when the condition fails;
+		// for init; cond; post { body }: the init statement, then that loop with the post statement last
+		// (only when no `continue` in the body could skip it)
+		if x.Cond != nil && (x.Post == nil || !hasContinue(x.Body)) {
+			t.loopDepth++
+			body := strings.TrimSuffix(strings.TrimPrefix(t.stmts(x.Body.List), "["), "]")
+			t.loopDepth--
+			parts := []string{"DIf (DNot " + t.expr(x.Cond) + ") [DBreak] []"}
+			if body != "" {
+				parts = append(parts, body)
+			}
+			if x.Post != nil {
+				parts = append(parts, t.stmt(x.Post))
+			}
+			loop := "DRange " + q("_") + " " + q("while") + " [" + strings.Join(parts, "; ") + "]"
+			if x.Init != nil {
+				return t.stmt(x.Init) + "; " + loop
+			}
+			return loop
 		}
 	case *ast.IfStmt:
 		if x.Init != nil {
@@ -485,4 +513,29 @@ func nestedRange(rel, fn, over string) string {
 		die("%s %s: %d range loops over %s, expected one", rel, fn, len(found), over)
 	}
 	return found[0]
+}
+
+// hasContinue: a `continue` that belongs to this loop (not to a loop nested in it)
+func hasContinue(b *ast.BlockStmt) bool {
+	found := false
+	var walk func(n ast.Node, top bool)
+	walk = func(n ast.Node, top bool) {
+		ast.Inspect(n, func(m ast.Node) bool {
+			switch y := m.(type) {
+			case *ast.ForStmt, *ast.RangeStmt:
+				if m != n {
+					return false
+				}
+			case *ast.FuncLit:
+				return false
+			case *ast.BranchStmt:
+				if y.Tok == token.CONTINUE && y.Label == nil {
+					found = true
+				}
+			}
+			return true
+		})
+	}
+	walk(b, true)
+	return found
 }
